@@ -68,7 +68,7 @@ def main(argv=None):
     st_rc = 0
     if args.tier == "thorough" and os.environ.get("VERIF_REPO") in (None, "", "/repo") and os.environ.get("VERIF_NO_SELFTEST") != "1":
         st_rc = run_selftest(pid, rep)
-    rc = rep.finish(getattr(mod, "EXPLANATION", ""), getattr(mod, "RULES", ""))
+    rc = rep.finish(getattr(mod, "EXPLANATION", ""), getattr(mod, "RULES", ""), replay=ctx.replay)
     return rc or st_rc
 
 
